@@ -71,6 +71,9 @@ Definition wrr_gen2 (s : mq) (ws : list (Z * Z)) (f : Z) (r1 : list (Z * Z)) (r2
   gen_WRR_run_from_2 (wrr_fields s) f r1 r2 (mtotal s) ws (fun _ => true).
 Definition wrr_gen3 (s : mq) (ws : list (Z * Z)) := gen_WRR_run_from_3 (wrr_fields s) (mtotal s) ws (fun _ => true).
 
+Lemma negb_leb0 (x : Z) : negb (Z.leb x 0) = Z.ltb 0 x.
+Proof. destruct (Z.leb_spec x 0), (Z.ltb_spec 0 x); try reflexivity; lia. Qed.
+
 (* ---- the generated fixes, by induction over the table ---------------------------------------------------------------- *)
 Lemma gen_wrr_top_spec : forall (st : wrr_run_st) (tot : Z) (l : list (Z * Z)),
   gen_WRR_run_from_0 st tot l (fun _ => true) =
@@ -80,6 +83,7 @@ Proof.
   induction l as [|[f w] t IH]; cbn [wrr_find wrr_get].
   - destruct (Z.eqb tot 0); reflexivity.
   - destruct (gen_range w) as [|x r2]; [exact IH|].
+    rewrite ?(negb_leb0 (wr_queue_count st f)).
     destruct (Z.ltb 0 (wr_queue_count st f)); [reflexivity|exact IH].
 Qed.
 
@@ -91,6 +95,7 @@ Proof.
   induction l as [|[f w] t IH]; cbn [wrr_find wrr_get].
   - destruct (Z.eqb tot 0); reflexivity.
   - destruct (gen_range w) as [|x r2]; [exact IH|].
+    rewrite ?(negb_leb0 (wr_queue_count st f)).
     destruct (Z.ltb 0 (wr_queue_count st f)); [reflexivity|exact IH].
 Qed.
 
@@ -100,11 +105,12 @@ Lemma gen_wrr_from2_spec : forall (st : wrr_run_st) (tot : Z) (ws : list (Z * Z)
 Proof.
   intros st tot ws f r1 r2. pose proof (gen_wrr_top_spec st tot ws) as T. unfold gen_WRR_run_from_0 in T.
   unfold gen_WRR_run_from_2, wrr_from.
-  destruct r2 as [|x r2']; [|destruct (Z.ltb 0 (wr_queue_count st f)); [reflexivity|]];
+  destruct r2 as [|x r2']; [|rewrite ?(negb_leb0 (wr_queue_count st f)); destruct (Z.ltb 0 (wr_queue_count st f)); [reflexivity|]];
     unfold wrr_out;
     (induction r1 as [|[g w] t IH]; cbn [wrr_find wrr_get];
      [ destruct (Z.eqb tot 0); [reflexivity|]; rewrite T; reflexivity
      | destruct (gen_range w) as [|y r2'']; [exact IH|];
+       rewrite ?(negb_leb0 (wr_queue_count st g));
        destruct (Z.ltb 0 (wr_queue_count st g)); [reflexivity|exact IH] ]).
 Qed.
 
